@@ -658,7 +658,7 @@ def sweep_c12(rng, tier):
         steps = []
         for _ in range(rng.randint(3, 10)):
             t, kw = rng.choice(C12_POOL); k = dict(timeout=0); k.update(kw)
-            mode = rng.choice(["full", "abandon", "fail", "check"])
+            mode = rng.choice(["full", "abandon", "fail", "check", "timedout"])
             steps.append((mode, t))
             try:
                 if mode == "full": list(ctparse_gen(t, ts=to_ts(ts), **k))
@@ -669,9 +669,14 @@ def sweep_c12(rng, tier):
                 elif mode == "fail":
                     try: list(ctparse_gen(t, ts="not a datetime", **k))
                     except Exception: pass
+                elif mode == "timedout":
+                    # a call that ran out of time is a call that failed: it must leave nothing behind either
+                    list(ctparse_gen(t, ts=to_ts(ts), **dict(k, timeout=1e-9)))
+                    ctparse.ctparse(t, ts=to_ts(ts), **dict(k, timeout=1e-9))
             except Exception as e:
                 fails.append({"text": t, "ts": list(ts), "opts": {"history": steps}, "expected": "no exception", "observed": type(e).__name__, "what": "C12 history"})
             t2, kw2 = rng.choice(C12_POOL); k2 = dict(timeout=0); k2.update(kw2)
+            if mode == "timedout": t2, k2 = t, k            # the text whose call just failed is the one to look at
             got = norm(stream_digest(t2, ts, k2)); dist["history checks"] += 1
             if got != ref[t2]:
                 fails.append({"text": t2, "ts": list(ts), "opts": {"history": steps}, "expected": "same stream as in a fresh state", "observed": "stream differs after the history", "what": "C12 history"})
@@ -946,7 +951,7 @@ def sweep_c12(rng, tier):
 
 
 # ------------------------------------------------------------------ C13
-def c13_run(text, ts, timeout, depth, clock_factory):
+def c13_run(text, ts, timeout, depth, clock_factory, single=False):
     """one run under a virtual clock; returns emissions, counts between consecutive deadline checks, whether anything raised"""
     import ctparse.timers as TM
     C = sys.modules["ctparse.ctparse"]
@@ -978,8 +983,14 @@ def c13_run(text, ts, timeout, depth, clock_factory):
     raised = None
     out = []
     try:
-        for p in C.ctparse_gen(text, ts=to_ts(ts), timeout=timeout, max_stack_depth=depth, scorer=CountScorer(C._DEFAULT_SCORER)):
-            if p is not None: out.append((enc_art(p.resolution), tuple(str(x) for x in p.production), round(p.score, 9)))
+        if single:
+            # the single-result call under the same instrumentation: `out` is its one result (or empty when it has no resolution)
+            r = C.ctparse(text, ts=to_ts(ts), timeout=timeout, max_stack_depth=depth, scorer=CountScorer(C._DEFAULT_SCORER))
+            str(r)
+            if r is not None and r.resolution is not None: out.append((enc_art(r.resolution), tuple(str(x) for x in r.production), round(r.score, 9)))
+        else:
+            for p in C.ctparse_gen(text, ts=to_ts(ts), timeout=timeout, max_stack_depth=depth, scorer=CountScorer(C._DEFAULT_SCORER)):
+                if p is not None: out.append((enc_art(p.resolution), tuple(str(x) for x in p.production), round(p.score, 9)))
     except Exception as e:
         raised = type(e).__name__
     finally:
@@ -1062,16 +1073,26 @@ def c13_text(job):
         # the single-result call under a timeout returns the best so far or a result without resolution, never raises
         C = sys.modules["ctparse.ctparse"]
         import ctparse.timers as TM
-        for deadline in samp(rng, range(1, reads + 1), min(6, reads)):
-            clock = VClock(); orig = TM.perf_counter; TM.perf_counter = clock
-            try:
-                r = C.ctparse(text, ts=to_ts(ts), timeout=deadline, max_stack_depth=depth)
-                str(r)
-                dist["single-result under timeout"] += 1
-            except Exception as e:
-                fails.append({"text": text, "ts": list(ts), "opts": {"virtual_deadline": deadline}, "expected": "clean partial result", "observed": type(e).__name__, "what": "C13 raises"})
-            finally:
-                TM.perf_counter = orig
+        first_emit = next((t for k, t in log if k == "final"), reads)
+        early = [d for d in range(1, reads + 1) if d < first_emit]          # deadlines before the first emission: the empty-handed case
+        for deadline in samp(rng, early, min(4, len(early))) + samp(rng, range(1, reads + 1), min(6, reads)):
+            one, lg1, raised1, _ = c13_run(text, ts, deadline, depth, VClock, single=True)
+            dist["single-result under timeout"] += 1
+            if raised1:
+                fails.append({"text": text, "ts": list(ts), "opts": {"virtual_deadline": deadline}, "expected": "clean partial result", "observed": raised1, "what": "C13 raises"}); continue
+            # the single-result call stops where the stream stops: nothing is computed after the first check made when time is up
+            late1 = [i for i, (k, t) in enumerate(lg1) if k == "check" and t - 1 > deadline]
+            if late1 and lg1[late1[0] + 1:]:
+                after = lg1[late1[0] + 1:]
+                fails.append({"text": text, "ts": list(ts), "opts": {"virtual_deadline": deadline, "depth": depth, "call": "ctparse()"}, "expected": "stop at the first check after the deadline", "observed": "%d operations after it: %s" % (len(after), dict(collections.Counter(k for k, _ in after))), "what": "C13 work after expiry"}); continue
+            # ... and returns the best of what the stream produced until then, or a result without resolution
+            got1, _, _, _ = c13_run(text, ts, deadline, depth, VClock)
+            if not got1 and one:
+                fails.append({"text": text, "ts": list(ts), "opts": {"virtual_deadline": deadline, "depth": depth, "call": "ctparse()"}, "expected": "a result without resolution (nothing was produced before the deadline)", "observed": "%s" % (one[0][0],), "what": "C13 single result"})
+            elif got1:
+                mx = max(x[2] for x in got1)
+                if not one or one[0][2] != mx or one[0] not in got1:
+                    fails.append({"text": text, "ts": list(ts), "opts": {"virtual_deadline": deadline, "depth": depth, "call": "ctparse()"}, "expected": "the best (score %r) of the %d candidates produced before the deadline" % (mx, len(got1)), "observed": "%s" % (one[0] if one else None,), "what": "C13 single result"})
     return fails, dict(dist)
 
 
@@ -1449,6 +1470,14 @@ def sweep_c15(rng, tier):
     ex = samp(rng, ex, 160 if tier == "thorough" else 45)
     ts0 = (2020, 11, 25, 12, 0, 0)
     ex += [(t, ts0) for t in ["monday morning 5.12.2020", "freitag abend 4.12.2020", "tomorrow #work 5pm", "5.12.2020 #trip-1 8:30 - 9:30", "9-5", "8 - 9 uhr", "3 days 15-18 Nov", "15-18 Nov für 3 Nächte", "am 5.5. um 8"]]
+    # texts whose match sequences of maximal coverage cannot be reduced to anything (connecting words, or a pattern match inside an
+    # ordinary word) next to a shorter sequence that can: the stream must stay empty - "derived from a sequence of maximal coverage"
+    # is decided on these (and on the same family with longer texts in C14)
+    dead = ["since", "beginning", "minutes this", "between", "quarter to at", "until from", "at on the", "this of the"]
+    live = ["5", "8", "1.", "may", "9h"]
+    for a in (dead if tier == "thorough" else dead[:2] + samp(rng, dead[2:], 2)):
+        for b in live:
+            ex.append((a + " " + b, ts0)); ex.append((b + " " + a, ts0))
     cases = []
     for t, ts in ex:
         cases.append((t, ts, {"scorer": "const", "depth": 0, "seed": 0}))
@@ -1504,6 +1533,12 @@ def gen_corpus(rng):
     alpha = ["r%d" % i for i in range(k)]
     n = rng.choice([2, 3, 5, 9, 20, 40])
     docs = [[rng.choice(alpha) for _ in range(rng.choice([1, 1, 2, 3, 4, 7, 12]))] for _ in range(n)]
+    # documents without any token (a candidate whose production sequence is empty) belong to the training set like any other:
+    # they add no n-gram counts but count towards their class's prior
+    if rng.random() < 0.3:
+        for _ in range(rng.randint(1, 3)):
+            docs.insert(rng.randint(1, len(docs)), [])
+        n = len(docs)
     labels = [rng.random() < rng.choice([0.2, 0.5, 0.8]) for _ in range(n)]
     if all(labels): labels[0] = False
     if not any(labels): labels[0] = True
